@@ -482,6 +482,6 @@ func observe(v *harness.Verdict, o outcome) {
 // Validate is the validation half of C15.
 var Validate = harness.Define(harness.Opts{
 	Name:  "validate",
-	Rule:  "a LogConfigSet (one backend) or LogMultiConfig (1-4 backends) of 1-6 logs that is well-formed by construction (regular / mirror / frozen / read-only logs, pool keys of eight kinds, harness-signed frozen STH, windows incl. sub-second ones, delays, EKU names, prefixes with leading/trailing/doubled slashes, mysql:// or postgres:// storage strings), then 0-5 validity-preserving edits and 0-2 invalidating edits from a catalogue with one entry per rule of the statement; presented as Go messages (ValidateLogConfig per log, ValidateLogConfigs, BuildLogBackendMap, ValidateLogMultiConfig, ToMultiLogConfig) and through LogConfigFromFile / MultiLogConfigFromFile in text and binary form. Each broken configuration is judged, then its well-formed twin (same frozen-STH signature octets), then the broken one again, in one process. Oracle: no panic; accepted <=> no invalidating edit (labels by construction), whatever was validated before. Non-trivial: >= 1 edit",
+	Rule:  "a LogConfigSet (one backend) or LogMultiConfig (1-4 backends) of 1-6 logs that is well-formed by construction (regular / mirror / frozen / read-only logs, pool keys of eight kinds, harness-signed frozen STH, windows incl. sub-second ones, delays, EKU names, prefixes with leading/trailing/doubled slashes, mysql:// or postgres:// storage strings), then 0-5 validity-preserving edits and 0-2 invalidating edits from a catalogue with one entry per rule of the statement; presented as Go messages (ValidateLogConfig per log, ValidateLogConfigs, BuildLogBackendMap, ValidateLogMultiConfig, ToMultiLogConfig) and through LogConfigFromFile / MultiLogConfigFromFile in text and binary form. klog verbosity 0-3; a rare class pads one log so that the binary file or an entry boundary lands at 2^16 / 2^20 +- a few octets. Each broken configuration is judged, then its well-formed twin (same frozen-STH signature octets), then the broken one again, in one process. Oracle: no panic; accepted <=> no invalidating edit (labels by construction), whatever was validated before. Non-trivial: >= 1 edit",
 	Quick: 3000, Thorough: 20000, MaxSample: 2500,
 }, genVal, checkVal)
